@@ -3,6 +3,7 @@ mod par;
 mod report;
 mod tree;
 mod valmc;
+mod dbgmc;
 mod clvmmc;
 mod conv;
 mod optab;
@@ -45,6 +46,7 @@ fn main() {
         "C07" => conv::c07(thorough, replay),
         "C08" => valmc::c08(thorough, replay),
         "C09" => conv::c09(thorough, replay),
+        "C12" => dbgmc::c12(thorough, replay),
         "C20" => valmc::c20(thorough, replay),
         _ => {
             eprintln!("no engine for {}", id);
